@@ -23,8 +23,8 @@ type Lin struct {
 	C    float64
 }
 
-func Konst(c float64) Lin  { return Lin{map[ssa.Value]int{}, c} }
-func Sym(v ssa.Value) Lin  { return Lin{map[ssa.Value]int{v: 1}, 0} }
+func Konst(c float64) Lin   { return Lin{map[ssa.Value]int{}, c} }
+func Sym(v ssa.Value) Lin   { return Lin{map[ssa.Value]int{v: 1}, 0} }
 func (a Lin) IsConst() bool { return len(a.Coef) == 0 }
 
 // Add returns a + s*b.
@@ -150,9 +150,9 @@ func (a AV) ConstBounds() (lo, hi float64, okLo, okHi bool) {
 
 // An analyses one function.
 type An struct {
-	Fn    *ssa.Function
-	Hyps  []string
-	Name  func(ssa.Value) string
+	Fn   *ssa.Function
+	Hyps []string
+	Name func(ssa.Value) string
 	// Assume gives the assumed range of an opaque value (assume/guarantee on interface calls).
 	Assume func(v ssa.Value) (AV, bool)
 	// Inline decides whether a static repository callee is evaluated in place.
@@ -781,8 +781,8 @@ func ProvesGE(av AV, target Lin) bool {
 
 // selfEdge describes how a loop-carried phi is updated along one back edge.
 type selfEdge struct {
-	kind string // add: phi + d ; min: math.Min(phi, x) ; max: math.Max(phi, x)
-	d, x AV
+	kind  string // add: phi + d ; min: math.Min(phi, x) ; max: math.Max(phi, x)
+	d, x  AV
 	bound AV // loop-invariant bounds the edge condition puts on the incoming value
 }
 
